@@ -334,6 +334,11 @@ fn rand_op(r: &mut Rng, pool: &[String], cur_len: usize) -> String {
 fn key_pool(r: &mut Rng) -> Vec<String> {
     let n = 4 + r.below(12);
     let mut p: Vec<String> = (0..n).map(|_| gen_string(r)).collect();
+    // keys whose order differs between UTF-8 bytes (= Rust's str order = code point order) and UTF-16 code units, or
+    // between byte order and a locale / case-folded order
+    if r.chance(1, 3) {
+        for k in ["\u{ffff}", "\u{10000}", "k\u{e000}", "k\u{1f600}", "\u{ff61}z", "\u{10348}a", "Z", "a", "_", "\u{e9}", "e\u{301}"] { if r.chance(1, 2) { p.push(k.to_string()); } }
+    }
     p.sort(); p.dedup();
     // shuffle so that insertion order and key order are unrelated
     for i in (1..p.len()).rev() { let j = r.below(i + 1); p.swap(i, j); }
